@@ -56,11 +56,20 @@ def make_any(frontend, framing, fc, L, reads):
         if after != list(regs):
             ok = False
             for pdu, res in spy.log:
-                if res is None or len(pdu) != 5 or pdu[0] != 6:
+                # a decoded holding-register write request (FC 6, 16, 22, 23) carried by a valid frame of the input
+                if res is None or len(pdu) < 5 or not (pdu[0] == 6 or pdu[0] == 16 or pdu[0] == 22 or pdu[0] == 23):
                     continue
                 if reads == 1 and not JUST[framing](B, pdu, res):
                     continue
-                exp = regfile.model(6, pdu[1:5], (0, list(regs)), True)[1]
+                wfc = 6 if pdu[0] == 6 else (16 if pdu[0] == 16 else (22 if pdu[0] == 22 else 23))
+                if wfc == 22 and len(pdu) < 7:
+                    continue
+                if (wfc == 16 and len(pdu) < 6) or (wfc == 23 and len(pdu) < 10):
+                    continue
+                # what the register-file model prescribes for that request (nothing, if it must be rejected)
+                if regfile.verdict(wfc, pdu[1:], (0, list(regs)), True) != 0:
+                    continue
+                exp = regfile.model(wfc, pdu[1:], (0, list(regs)), True)[1]
                 if after == exp:
                     ok = True
             if not ok:
@@ -77,6 +86,46 @@ def make_any(frontend, framing, fc, L, reads):
     return anyb
 
 
+def make_framed(frontend, framing, fc, blen):
+    """well-framed request whose PDU body is ANY blen bytes (internally inconsistent byte counts / quantities included)"""
+    def framed(hdr: bytes, b: bytes, st: bytes) -> bool:
+        assume(len(hdr) == 3 and len(b) == blen and len(st) == 8)
+        unit = hdr[2]
+        if framing != "tcp":
+            assume(unit != 0)
+            # on a serial line the frame length IS derived from the byte-count byte: a PDU that is longer or shorter than
+            # its byte count says is not a well-framed request there (its checksum sits elsewhere)
+            if fc == 16:
+                assume(b[4] == blen - 5)
+            if fc == 23:
+                assume(b[8] == blen - 9)
+        regs = [st[2 * i] * 256 + st[2 * i + 1] for i in range(4)]
+        slave = SL.small_context(hr=regs)
+        ctx = SL.server_context(slave, single=True)
+        frame = adu.ref_adu(framing, bytes([fc]) + b, unit, hdr[0:2])
+        r = SL.drive(frontend, framing, ctx, [frame])
+        if r.escaped is not None:
+            explain("%s escaped the front-end: %s", type(r.escaped).__name__, r.escaped)
+            return False
+        after = list(slave.store["h"].values)
+        if regfile.verdict(fc, b, (0, list(regs)), True) == 0:
+            exp = regfile.model(fc, b, (0, list(regs)), True)[1]
+        else:
+            exp = list(regs)             # a request that must be rejected changes nothing
+        if len(after) != 4:
+            explain("the register block changed its size to %d cells", len(after))
+            return False
+        if not same(after, exp, "holding registers after the request"):
+            return False
+        probe = adu.ref_adu(framing, bytes([3, 0, 0, 0, 2]), 1, b"\x12\x34")
+        r2 = SL.drive(frontend, framing, ctx, [probe])
+        if r2.escaped is not None or r2.twisted_dropped is not None:
+            return False
+        exp_pdu = bytes([3, 4]) + bytes([after[0] // 256, after[0] % 256, after[1] // 256, after[1] % 256])
+        return len(r2.written) == 1 and same(r2.written[0], adu.ref_adu(framing, exp_pdu, 1, b"\x12\x34"), "probe response")
+    return framed
+
+
 def obligations(tier):
     from harness import kernels
     T = 300 if tier == "quick" else 1800
@@ -89,6 +138,7 @@ def obligations(tier):
             frs = [("rtu", 8), ("ascii", 17)] if tier == "quick" else [("rtu", 8), ("rtu", 9), ("ascii", 17), ("binary", 10)]
         else:
             frs = [("tcp", 12)] if tier == "quick" else [("tcp", 12), ("tcp", 9), ("tcp", 14)]
+
             if fe in ("sync-tcp", "twisted-tcp") and tier != "quick":
                 frs += [("rtu", 8)]
         for fr, L in frs:
@@ -102,6 +152,14 @@ def obligations(tier):
                     if tier == "quick" and reads == 2 and (fc != 6 or fr == "ascii"):
                         continue
                     plan.append((fe, fr, fc, L, reads))
+    # well-framed requests with arbitrary (possibly inconsistent) PDU bodies
+    framed = [("sync-tcp", "tcp", 23, 13), ("asyncio-udp", "tcp", 16, 9), ("twisted-tcp", "tcp", 23, 13), ("sync-serial", "rtu", 16, 9)]
+    if tier != "quick":
+        framed += [(fe, "tcp", fc, bl) for fe in ("sync-udp", "asyncio-tcp", "twisted-udp") for fc, bl in ((23, 13), (16, 9), (22, 6))]
+    for fe, fr, fc, bl in framed:
+        out.append(Obl("framed.%s.%s.fc%d.body%d" % (fe, fr, fc, bl), make_framed(fe, fr, fc, bl), timeout=T,
+                       contracts=contracts[fr], lemmas=lem[fr], findings=("KF-write-registers-short-data-c12",) if False else (),
+                       bounds="%s front-end, %s framing: a correctly framed request with function code %d whose %d body bytes are arbitrary (inconsistent quantity / byte count included); 4 symbolic registers; then a probe" % (fe, fr, fc, bl)))
     for fe, fr, fc, L, reads in plan:
         out.append(Obl("any.%s.%s.fc%d.len%d.reads%d" % (fe, fr, fc, L, reads), make_any(fe, fr, fc, L, reads), timeout=T,
                        contracts=contracts[fr], lemmas=lem[fr], findings=("KF-ascii-lenient-lrc-field",) if fr == "ascii" and reads == 1 else (),
